@@ -2,10 +2,17 @@
 // two explicit FIFO queues which the op line drains in the order it prescribes, so that
 // every admissible delivery order of the two halves' messages can be driven.
 //
-// op line:  P:<t>:<min8>:<max8>[,<t>:<min8>:<max8>...]  <op> <op> ...
-//   port k is named "p<k>:<t>" (t = i | f), is addressed as "/p<k>" and carries the metadata
-//   min = min8/8, max = max8/8 (written as exact decimals, e.g. -3/8 -> "-0.375"); k <= 9,
-//   |min8|, |max8| <= 8388607 (so that every intermediate of MidiBijection is exact in double).
+// op line:  P:<spec>[,<spec>...]  <op> <op> ...
+//   spec = <sig><flags>:<min8>:<max8>[:<depth>.<pad>]
+//   port k (k <= 9) is named  "p<k>" + PAD[0..pad) + signature, where the signature is chosen by <sig>:
+//       i ":i"   f ":f"   I "::i"   F "::f"   j ":f:i"   g ":i:f"
+//   (the spellings rtosc applications use: plain, optional-argument, both types accepted),
+//   its address is "/" + depth x "d<k>/" + "p<k>" + PAD[0..pad)  (depth <= 3 nested rtosc::Ports tables,
+//   pad <= 60; default 0.0, i.e. "/p<k>"), and it carries the metadata min = min8/8, max = max8/8 (written as
+//   exact decimals, e.g. -3/8 -> "-0.375"); |min8|, |max8| <= 8388607 (so that every intermediate of
+//   MidiBijection is exact in double).  <flags> (letters, any order) add further metadata keys the way real
+//   port tables carry them:  d ":documentation=..." and p ":parameter" (no value) and L ":scale=logarithmic"
+//   in front of min;  s ":shortname=sn" between min and max;  u ":unit=Hz" and l ":scale=linear" behind max.
 //   ops:  m<k>c | m<k>f     MidiMappernRT::map("/p<k>", coarse | fine)
 //         u<k>c | u<k>f     MidiMappernRT::unMap("/p<k>", coarse | fine)
 //         x                 MidiMappernRT::clear()
@@ -16,8 +23,9 @@
 //                           MidiMappernRT::useFreeID; nothing happens when the queue is empty
 // output:   one token per `c` op, in order: `-` when the backend callback received nothing, else the
 //           messages it received joined by '+', each  p<k>:i:<decimal>  |  p<k>:f:<float bits, 8 hex digits>
-//           (an address that is not of the form /p<k>, or another argument type, is printed as
-//           X<hex of address>:<type string>).  A line without `c` ops prints `.`.
+//           where k is the port whose address the message carries (an address that is not the address of a
+//           port of the line, or another argument type, is printed as X<hex of address>:<type string>).
+//           A line without `c` ops prints `.`.
 #include "common.h"
 #include <deque>
 #include <functional>
@@ -32,6 +40,9 @@ struct DynPorts : rtosc::Ports {
     DynPorts() : rtosc::Ports({}) {}
     void add(const char *name, const char *meta) {
         ports.push_back(rtosc::Port{name, meta, NULL, [](const char *, rtosc::RtData &) {}});
+    }
+    void add_dir(const char *name, const rtosc::Ports *sub) {
+        ports.push_back(rtosc::Port{name, NULL, sub, [](const char *, rtosc::RtData &) {}});
     }
     void done() { refreshMagic(); }
 };
@@ -76,53 +87,120 @@ msgbuf copy_msg(const char *m) {
     return msgbuf(m, m + n);
 }
 
-std::string show_backend(const char *m) {
+std::string show_backend(const char *m, const std::deque<std::string> &addrs) {
     std::string addr = m;
+    // not an OSC message at all (e.g. an empty buffer): do not let the accessors scan past it
+    if (addr.empty() || addr[0] != '/') return "X" + (addr.empty() ? std::string("-") : hexs(addr.c_str())) + ":?";
     std::string types = rtosc_argument_string(m);
-    bool simple = addr.size() == 3 && addr[0] == '/' && addr[1] == 'p' && addr[2] >= '0' && addr[2] <= '9';
+    int k = -1;
+    for (size_t i = 0; i < addrs.size(); ++i)
+        if (addrs[i] == addr) k = (int)i;
     char buf[64];
-    if (simple && types == "i") {
-        snprintf(buf, sizeof buf, "p%c:i:%d", addr[2], (int)rtosc_argument(m, 0).i);
+    if (k >= 0 && types == "i") {
+        snprintf(buf, sizeof buf, "p%d:i:%d", k, (int)rtosc_argument(m, 0).i);
         return buf;
     }
-    if (simple && types == "f") {
+    if (k >= 0 && types == "f") {
         float f = rtosc_argument(m, 0).f;
         uint32_t u;
         memcpy(&u, &f, 4);
-        snprintf(buf, sizeof buf, "p%c:f:%08x", addr[2], (unsigned)u);
+        snprintf(buf, sizeof buf, "p%d:f:%08x", k, (unsigned)u);
         return buf;
     }
     return "X" + hexs(addr.c_str()) + ":" + (types.empty() ? std::string("-") : types);
+}
+
+// the 64 characters long names are padded with
+const char *PAD = "_long_parameter_name_for_midi_learn_with_many_characters_in_it_x";
+
+const char *signature(char sig) {
+    switch (sig) {
+    case 'i': return ":i";
+    case 'f': return ":f";
+    case 'I': return "::i";
+    case 'F': return "::f";
+    case 'j': return ":f:i";
+    case 'g': return ":i:f";
+    }
+    return NULL;
+}
+
+void meta_kv(std::string &meta, const char *key, const char *val) {
+    meta += ":";
+    meta += key;
+    meta.push_back('\0');
+    if (val) {
+        meta += "=";
+        meta += val;
+        meta.push_back('\0');
+    }
 }
 
 std::string step(const std::string &line) {
     auto w = words(line);
     if (w.empty() || w[0].size() < 3 || w[0][0] != 'P' || w[0][1] != ':') return "bad-op";
     // ---- port table ------------------------------------------------------------------
-    std::deque<std::string> names, metas;
+    std::deque<std::string> names, metas, addrs, dirnames;
+    std::deque<DynPorts> dirs;      // nested tables (deque: stable addresses)
     DynPorts table;
     {
         auto specs = split(w[0].substr(2), ',');
         if (specs.size() > 10) return "bad-op";
+        std::vector<long> depths;
         for (size_t k = 0; k < specs.size(); ++k) {
             auto f = split(specs[k], ':');
-            long mn, mx;
-            if (f.size() != 3 || (f[0] != "i" && f[0] != "f") || !parse_int(f[1], mn) || !parse_int(f[2], mx) ||
-                mn < -8388607 || mn > 8388607 || mx < -8388607 || mx > 8388607)
+            long mn, mx, depth = 0, pad = 0;
+            if ((f.size() != 3 && f.size() != 4) || f[0].empty() || !signature(f[0][0]) || !parse_int(f[1], mn) ||
+                !parse_int(f[2], mx) || mn < -8388607 || mn > 8388607 || mx < -8388607 || mx > 8388607)
                 return "bad-op";
-            names.push_back("p" + std::to_string(k) + ":" + f[0]);
-            std::string meta = ":min";
-            meta.push_back('\0');
-            meta += "=" + eighths(mn);
-            meta.push_back('\0');
-            meta += ":max";
-            meta.push_back('\0');
-            meta += "=" + eighths(mx);
-            meta.push_back('\0');
+            for (size_t i = 1; i < f[0].size(); ++i)
+                if (!strchr("dpLsul", f[0][i])) return "bad-op";
+            if (f.size() == 4) {
+                auto g = split(f[3], '.');
+                if (g.size() != 2 || !parse_nat(g[0], depth) || !parse_nat(g[1], pad) || depth > 3 || pad > 60)
+                    return "bad-op";
+            }
+            const std::string flags = f[0].substr(1);
+            auto has = [&](char c) { return flags.find(c) != std::string::npos; };
+            std::string leaf = "p" + std::to_string(k) + std::string(PAD, PAD + pad);
+            names.push_back(leaf + signature(f[0][0]));
+            std::string addr = "/";
+            for (long j = 0; j < depth; ++j) addr += "d" + std::to_string(k) + "/";
+            addrs.push_back(addr + leaf);
+            depths.push_back(depth);
+            std::string meta;
+            if (has('d')) meta_kv(meta, "documentation", "a parameter of the synthesizer");
+            if (has('p')) meta_kv(meta, "parameter", NULL);
+            if (has('L')) meta_kv(meta, "scale", "logarithmic");
+            meta_kv(meta, "min", eighths(mn).c_str());
+            if (has('s')) meta_kv(meta, "shortname", "sn");
+            meta_kv(meta, "max", eighths(mx).c_str());
+            if (has('u')) meta_kv(meta, "unit", "Hz");
+            if (has('l')) meta_kv(meta, "scale", "linear");
             meta.push_back('\0');
             metas.push_back(meta);
         }
-        for (size_t k = 0; k < specs.size(); ++k) table.add(names[k].c_str(), metas[k].data());
+        for (size_t k = 0; k < specs.size(); ++k) {
+            // innermost table first: leaf, then depth x "d<k>/" around it
+            const rtosc::Ports *inner = NULL;
+            dirnames.push_back("d" + std::to_string(k) + "/");
+            const char *dn = dirnames.back().c_str();
+            if (depths[k] == 0) {
+                table.add(names[k].c_str(), metas[k].data());
+                continue;
+            }
+            dirs.emplace_back();
+            dirs.back().add(names[k].c_str(), metas[k].data());
+            dirs.back().done();
+            inner = &dirs.back();
+            for (long j = 1; j < depths[k]; ++j) {
+                dirs.emplace_back();
+                dirs.back().add_dir(dn, inner);
+                dirs.back().done();
+                inner = &dirs.back();
+            }
+            table.add_dir(dn, inner);
+        }
         table.done();
     }
     size_t nports = names.size();
@@ -151,7 +229,7 @@ std::string step(const std::string &line) {
     nrt.base_ports = &table;
     nrt.rt_cb = [&](const char *m) { to_rt.push_back(copy_msg(m)); };
     rt.setFrontendCb([&](const char *m) { to_nrt.push_back(copy_msg(m)); });
-    rt.setBackendCb([&](const char *m) { backend_log.push_back(show_backend(m)); });
+    rt.setBackendCb([&](const char *m) { backend_log.push_back(show_backend(m, addrs)); });
 
     std::string out;
     bool any = false;
@@ -182,11 +260,9 @@ std::string step(const std::string &line) {
                 return "unexpected-nrt-message:" + hexs(m.data());
             nrt.useFreeID(rtosc_argument(m.data(), 0).i);
         } else if (t[0] == 'm') {
-            std::string addr = std::string("/p") + t[1];
-            nrt.map(addr.c_str(), t[2] == 'c');
+            nrt.map(addrs[t[1] - '0'].c_str(), t[2] == 'c');
         } else if (t[0] == 'u') {
-            std::string addr = std::string("/p") + t[1];
-            nrt.unMap(addr.c_str(), t[2] == 'c');
+            nrt.unMap(addrs[t[1] - '0'].c_str(), t[2] == 'c');
         } else { // c
             auto f = split(t.substr(2), ':');
             long a = 0, b = 0, c = 1, d = 0;
